@@ -733,6 +733,11 @@ func PhytoOut(g *GlobalVarsMain, l *CropSharedVars, hPath *HFilePath, zeit int, 
 		} else {
 			g.NFIX = DTGESN - SUMPE
 		}
+		if g.NFIX < 0 {
+			// the uptake of the layers can add up to slightly more than the demand (layers with a negative
+			// diffusion term are set to zero after the demand was shared out): no negative fixation
+			g.NFIX = 0
+		}
 	} else {
 		g.NFIX = 0
 	}
